@@ -13,7 +13,7 @@ LINKS = ["copy", "hardlink", "symlink"]
 class Scene:
     """a cache store holding two directory objects, a workspace checked out from the first one"""
 
-    def __init__(self, ctx, rng, local=None, with_state=None):
+    def __init__(self, ctx, rng, local=None, with_state=None, root_link=False):
         from dvc_data.hashfile.state import State
 
         self.rng = rng
@@ -27,6 +27,13 @@ class Scene:
         self.odb = stores.make_odb(os.path.join(self.root, "cache"), local=self.local, **cfg)
         self.fs = stores.fs_local()
         self.ws = os.path.join(self.root, "ws")
+        self.root_link = root_link
+        if root_link:
+            # the checkout path itself is a symbolic link to the directory that holds the files (a data directory kept on
+            # another disk and linked into the project)
+            os.makedirs(os.path.join(self.root, "ws-real"))
+            os.symlink(os.path.join(self.root, "ws-real"), self.ws)
+        self.saved_link = False  # did the last checkout save a link record
         self.contents = {}
 
     def put_tree(self, files, skip=()):
@@ -52,11 +59,25 @@ class Scene:
         from dvc_data.hashfile.checkout import CheckoutError, LinkError, PromptError, checkout
 
         self.odb.cache_types = list(types)
+        self.saved_link = False
 
         def f():
             return checkout(self.ws, self.fs, self.obj(oid), self.odb, state=self.state, **kw)
 
-        kind, res = safe_call(f, expected=(PromptError, CheckoutError, LinkError, FileNotFoundError))
+        if self.state is not None:
+            # observe (from the harness process) whether this checkout saves a link record
+            orig = self.state.set_link
+
+            def noting(*a, **k):
+                self.saved_link = True
+                return orig(*a, **k)
+
+            self.state.set_link = noting
+        try:
+            kind, res = safe_call(f, expected=(PromptError, CheckoutError, LinkError, FileNotFoundError))
+        finally:
+            if self.state is not None:
+                del self.state.set_link
         if kind == "ok":
             return {"ok": bool(res)}
         return {"err": res}
@@ -160,6 +181,21 @@ class Scene:
                 done.append(["add_dangling_symlink", rel])
         return done
 
+    def link_record(self):
+        """(the link record saved for the checkout path, what the path is now: its own inode - the link's when it is a
+        symbolic link - and the mtime token of what is under it, does the record's consumer State.get_unused_links
+        recognise the untouched path); or the name of the error"""
+        from dvc_data.hashfile.utils import get_mtime_and_size
+
+        rel = os.path.relpath(self.ws, self.root)
+
+        def f():
+            saved = self.state.links.get(rel)
+            now = (os.lstat(self.ws).st_ino, get_mtime_and_size(self.ws, self.fs)[0])
+            return (tuple(saved) if saved is not None else None, now, rel in self.state.get_unused_links([], self.fs))
+
+        return safe_call(f)[1]
+
     def close(self):
         if self.state is not None:
             self.state.close()
@@ -188,9 +224,25 @@ def canon_model_ws(ans, sizes):
     return dict(sorted(out.items()))
 
 
+def link_record_oracle(ctx, sc, case, rec):
+    """C10, last clause: the link record a checkout saved matches the resulting workspace - the inode of the checkout path itself
+    (not of what a symbolic link there points at) and the mtime token - so that the untouched path is recognised as a link of ours"""
+    ctx.count("link_record_checked")
+    if os.path.islink(sc.ws):
+        ctx.count("link_record_checked:checkout_path_is_a_symlink")
+    if not isinstance(rec, tuple):
+        ctx.oracle(False, case, {"why": "the saved link record could not be compared with the workspace", "error": str(rec)})
+        return
+    saved, now, recognised = rec
+    ctx.oracle(saved == now, case, {"why": "the saved link record does not match the resulting workspace", "saved": str(saved), "workspace": str(now),
+                                    "checkout_path_is_a_symlink": os.path.islink(sc.ws)})
+    ctx.oracle(recognised, case, {"why": "the path is exactly as checkout left it, yet State.get_unused_links does not recognise it from the saved link record",
+                                  "saved": str(saved), "workspace": str(now)})
+
+
 def check_force(ctx, rng):
     """C10: forced checkout from an arbitrary prior state; idempotence; relink; cache untouched; link record"""
-    sc = Scene(ctx, rng)
+    sc = Scene(ctx, rng, root_link=rng.random() < 0.2)
     try:
         prior = gen.rand_tree(rng, max_files=5, allow_odd=False)
         existing = rng.choice(LINKS)
@@ -238,24 +290,20 @@ def check_force(ctx, rng):
         case = {"force_checkout": {"prior": {"/".join(k): v.decode("latin1") for k, v in prior.items()},
                                     "target": {"/".join(k): v.decode("latin1") for k, v in target.items()},
                                     "existing": existing, "configured": configured, "relink": relink, "edits": edits,
-                                    "local": sc.local, "state": sc.state is not None}}
+                                    "local": sc.local, "state": sc.state is not None, "root_is_symlink": sc.root_link}}
         res = sc.checkout(t2, [configured], force=True, relink=relink)
         after = sc.walk()
         link_rec = None
-        if sc.state is not None and relink:
-            from dvc_objects.fs.system import inode
-
-            from dvc_data.hashfile.utils import get_mtime_and_size
-
-            rel = os.path.relpath(sc.ws, sc.root)
-            k2, v2 = safe_call(lambda: (sc.state.links.get(rel), (inode(sc.ws), get_mtime_and_size(sc.ws, sc.fs)[0])))
-            link_rec = v2 if k2 == "ok" else v2
+        if sc.state is not None and "ok" in res and (relink or sc.saved_link) and not dangling:
+            link_rec = sc.link_record()
         res2 = sc.checkout(t2, [configured], force=True, relink=False)
         after2 = sc.walk()
         cache_after = sc.cache_snapshot()
         ctx.case(case, nontrivial=existing != configured or bool(edits))
         ctx.count("links:%s->%s relink=%s" % (existing, configured, relink))
         ctx.count("store=%s" % ("local" if sc.local else "generic"))
+        if sc.root_link:
+            ctx.count("workspace_root_is_a_symlink")
         sizes = {md5hex(c): len(c) for c in list(target.values()) + list(prior.values())}
         ans = ctx.driver.ask(model_req(sc, before, target, [o for o in cache_before if not o.endswith(".dir")],
                                        {"force": True, "relink": relink, "types": [configured]}))
@@ -286,9 +334,10 @@ def check_force(ctx, rng):
             ctx.oracle(not bad, case, {"why": "a relinking checkout left files with another link type", "files": bad, "configured": configured})
         ctx.oracle(all(cache_after.get(o) == h for o, h in cache_before.items()), case,
                    {"why": "checkout changed the bytes of a cache object", "changed": [o for o, h in cache_before.items() if cache_after.get(o) != h]})
-        if link_rec is not None and isinstance(link_rec, tuple):
-            ctx.oracle(link_rec[0] == link_rec[1], case, {"why": "the saved link record does not match the resulting workspace",
-                                                            "saved": str(link_rec[0]), "workspace": str(link_rec[1])})
+        if sc.root_link:
+            ctx.oracle(os.path.islink(sc.ws) and os.path.isdir(sc.ws), case, {"why": "checkout replaced the symbolic link the workspace is reached through"})
+        if link_rec is not None:
+            link_record_oracle(ctx, sc, case, link_rec)
         if len(ctx.samples) < 2:
             ctx.sample({"case": case["force_checkout"], "result": res})
     finally:
@@ -366,6 +415,7 @@ def check_single_file(ctx, rng):
         relink = rng.random() < 0.7
         r0 = sc.checkout(md5hex(v1), [existing], force=True)
         res = sc.checkout(md5hex(v2), [configured], force=True, relink=relink)
+        link_rec = sc.link_record() if sc.state is not None and "ok" in r0 and "ok" in res and (relink or sc.saved_link) else None
         case = {"single_file": {"same_content": v1 == v2, "existing": existing, "configured": configured, "relink": relink,
                                 "local": sc.local, "state": sc.state is not None}}
         ctx.case(case, nontrivial=existing != configured)
@@ -383,6 +433,8 @@ def check_single_file(ctx, rng):
             else:
                 kind = "copy"
             ctx.oracle(kind == configured, case, {"why": "a relinking checkout of a single file left another link type", "got": kind, "configured": configured})
+        if link_rec is not None:
+            link_record_oracle(ctx, sc, case, link_rec)
         res2 = sc.checkout(md5hex(v2), [configured], force=True, relink=False)
         ctx.oracle(res2 == {"ok": False}, case, {"why": "a second checkout of a single file did not report 'nothing to do'", "second": res2})
     finally:
@@ -427,7 +479,10 @@ def run(ctx):
     ctx.rule = (
         "exhaustive _needs_relink table; (prior, target) pairs over nested trees with duplicate contents and empty files, the 3x3 "
         "(existing link type, configured link type) matrix, relink on/off, both store classes, with/without state, user edits "
-        "between the checkouts; single-file targets over the same link matrix; each followed by a second checkout; histories in one process where contents seen uncached are committed (or an object is collected and re-fetched) before the next checkout. non-trivial = link type changes or the user edited the workspace"
+        "between the checkouts, the workspace root reached directly or through a symbolic link to the directory; single-file targets over the same link matrix "
+        "(under the symbolic link type the checkout path itself is a link); each followed by a second checkout; whenever a checkout with a state saved a link "
+        "record (observed by wrapping State.set_link) the record is compared with the lstat inode of the checkout path and the mtime token, and "
+        "State.get_unused_links must recognise the untouched path; histories in one process where contents seen uncached are committed (or an object is collected and re-fetched) before the next checkout. non-trivial = link type changes or the user edited the workspace"
     )
     ctx.assumptions = ["reflink is unavailable in the sandbox (copy is what runs)", "hard-linking an empty file creates a fresh empty file: for empty files only symbolic link versus regular file is compared"]
     relink_table(ctx)
